@@ -97,7 +97,7 @@ fn receiver<C: Suite>(ctx: &mut Ctx, n: u16, t: u16, tb: u16, kind: &str, ids: &
     let m = others.len();
     let sec1 = runs[0].r1_secret[&me].clone();
     let (honest_r1, _) = dkg_inbox(&runs[0], &me);
-    let honest_sec2 = match dkg::part2(sec1.clone(), &honest_r1) {
+    let honest_sec2 = match C::api_dkg_part2(sec1.clone(), &honest_r1) {
         Ok(x) => x.0,
         Err(_) => return ctx.viol("honest-dkg-failed", "control", json!({})),
     };
@@ -125,7 +125,7 @@ fn receiver<C: Suite>(ctx: &mut Ctx, n: u16, t: u16, tb: u16, kind: &str, ids: &
         }
         // a contribution of run B made for another threshold has a commitment of another length: part2 refuses it
         let model2 = r1_digits.iter().all(|x| *x < 2) && (tb == t || r1_digits.iter().all(|x| *x != 1));
-        let p2 = dkg::part2(sec1.clone(), &r1map);
+        let p2 = C::api_dkg_part2(sec1.clone(), &r1map);
         ctx.count("part2_calls");
         if p2.is_ok() != model2 {
             ctx.viol("part2-disagrees-with-model", if p2.is_ok() { "accepted" } else { "refused" }, d("part2", json!({"r1_fill": r1_digits})));
@@ -167,7 +167,7 @@ fn receiver<C: Suite>(ctx: &mut Ctx, n: u16, t: u16, tb: u16, kind: &str, ids: &
                     }
                 }
             }
-            let p3 = dkg::part3(&sec2, &r1map, &r2map);
+            let p3 = C::api_dkg_part3(&sec2, &r1map, &r2map);
             ctx.count("part3_calls");
             match (&p3, model3) {
                 (Ok(_), false) => ctx.viol("inconsistent-history-accepted", "", d("part3 produced key material for a history the model refuses", json!({"r1_fill": r1_digits, "r2_fill": r2_digits.iter().enumerate().map(|(j, x)| format!("{:?}", r2_opts[j][*x].map(|(r, a)| (r, id_hex::<C>(&a))))).collect::<Vec<_>>()}))),
@@ -251,7 +251,7 @@ fn common_sets<C: Suite>(ctx: &mut Ctx, n: u16, t: u16, kind: &str, ids: &[Ident
                 }
             }
             let sec1 = runs[run_of(i)].r1_secret[me].clone();
-            let r = dkg::part2(sec1, &r1).and_then(|(s2, _)| dkg::part3(&s2, &r1, &r2));
+            let r = C::api_dkg_part2(sec1, &r1).and_then(|(s2, _)| C::api_dkg_part3(&s2, &r1, &r2));
             match r {
                 Ok((kp, pkp)) => {
                     kps.insert(*me, kp);
